@@ -2139,6 +2139,7 @@ fn finish(shared: &Arc<Shared>) -> ! {
 		}
 		run.require("verify_size: mined cuckatoo header accepted on UserTesting", run.counter("verify_size.UserTesting.cuckatoo.mined_header_accepted"), 1);
 		run.require("verify_size: mined cuckatoo header accepted on AutomatedTesting", run.counter("verify_size.AutomatedTesting.cuckatoo.mined_header_accepted"), 1);
+		run.require("verify_size: genuine cycles of another length than the proof size presented", run.counter("verify_size.genuine_cycles_of_other_length"), 20);
 		run.require("reference: published vectors confirmed", run.counter("reference.published_vectors_confirmed"), 12);
 		run.require("difficulty: primary agree", run.counter("difficulty.primary.agree"), thr(10_000));
 		run.require("difficulty: secondary agree", run.counter("difficulty.secondary.agree"), thr(2_000));
@@ -3069,6 +3070,24 @@ fn verify_size_job(w: &Worker, chain: ChainTypes, eb: u8, heights: Vec<u64>, per
 			};
 			bh.pow.proof.nonces = cyc.clone();
 			verify_size_case(w, chain, &bh, "mined_header", &mut st);
+			// genuine simple cycles of the SAME header-seeded graph that have another length than the
+			// required proof size: "exactly the required number of nonces" must hold through the public
+			// entry point as well (verify_size builds its context from the proof it is handed)
+			{
+				let g = RefGraph::new(v, eb as u32, ref_keys(&bh.pre_pow(), None), true);
+				let adj = Adjacency::build(&g, JoinMode::Strict);
+				let (shorter, _) = find_cycles(&g, &adj, 2, l - 1, 400_000, 4, false, p.below(g.num_edges));
+				let (longer, _) = find_cycles(&g, &adj, l + 1, l + 8, 400_000, 2, false, p.below(g.num_edges));
+				for c in shorter.into_iter().chain(longer.into_iter()) {
+					if c.len() == l {
+						continue;
+					}
+					let mut b2 = bh.clone();
+					b2.pow.proof.nonces = sorted(c);
+					st.bump("verify_size.genuine_cycles_of_other_length", 1);
+					verify_size_case(w, chain, &b2, "genuine_cycle_of_other_length", &mut st);
+				}
+			}
 			// near misses at header level
 			let mut b2 = bh.clone();
 			let i = p.usize_below(l);
